@@ -13,7 +13,7 @@ import re
 
 from ..circles import Catalogue, gap_to_circle
 from ..common import module_region, short, where
-from ..exprs import is_const, mentions, strip
+from ..exprs import inline_calls, is_const, mentions, simplify, strip
 from ..mirlib import Expr, Program, expr_str
 from ..tae import TableError
 
@@ -109,7 +109,7 @@ def run(run):
         # inside the per-entry closure nothing but the cell-by-cell comparison decides (a pre-filter on sizes has
         # to agree with the catalogue's own notion of width for all 22 drawings, flush-left ones included)
         for fn in sorted(q for q in prog.bodies if re.search(r"circle_map::endorse_\w+_span$", q)):
-            for q in module_region(prog, fn, stop=r"::(is_subset_of|endorse_\w+_span)$"):
+            for q in module_region(prog, fn, stop=r"::is_subset_of$"):
                 if q.count("{closure") > 1:
                     continue
                 qb = prog.bodies[q]
@@ -144,7 +144,7 @@ def run(run):
                 if c[0] == "call" and c[1].endswith("circle::Circle::new") and is_const(c[2][2], 0) and \
                         strip(c[2][0])[0] == "call" and strip(c[2][0])[1].endswith("CircleArt::center") and \
                         strip(c[2][1])[0] == "call" and strip(c[2][1])[1].endswith("CircleArt::radius") and \
-                        mentions(r[3][1][1], lambda z: z[0] == "call" and z[1].endswith("span::Span::localize")):
+                        (lambda sp: sp[0] == "call" and sp[1].endswith("span::Span::localize"))(strip(simplify(inline_calls(prog, r[3][1][1], keep=r"span::Span::localize$")))):
                     okc = True
     if okc:
         run.ok("C13.T2", "CIRCLES_SPAN entries = (Circle::new(center(), radius(), unfilled), localised span)", cat.file)
